@@ -214,6 +214,49 @@ pub fn run(cx: &mut Cx) {
     }
     let mini = cx.tier == Tier::Mini;
 
+    // (a0) the size ladder: one value line of 2^20, 2^22 and 2^24 bytes (thorough:
+    // 2^26) plus a little - a scalar, and a list of that many bytes of items -
+    // in the first of two records.  A per-line limit shows one rung above it.
+    if cx.mine(2) && matches!(cx.tier, Tier::Quick | Tier::Thorough) {
+        let rungs: Vec<usize> = if cx.tier == Tier::Thorough { vec![1 << 20, 1 << 22, 1 << 24, 1 << 26] } else { vec![1 << 20, 1 << 22, 1 << 24] };
+        cx.set_budget(1 << 30, 1 << 38);
+        for rung in rungs {
+            for list in [false, true] {
+                let n = rung + 33;
+                let (key, value, items) = if list {
+                    let item = "wip/some-package";
+                    let k = n / (item.len() + 1) + 1;
+                    ("SCAN_DEPENDS", vec![item; k].join(" "), k)
+                } else {
+                    ("PKG_SKIP_REASON", "why ".repeat(n / 4 + 1), 0)
+                };
+                let text = format!("PKGNAME=big-1.0\nCATEGORIES=cat\n{key}={value}\nMAINTAINER=me\nPKGNAME=after-2.0\nCATEGORIES=dog\n");
+                cx.check(
+                    || format!("size ladder: one {key} line of {} bytes in the first of two records", value.len()),
+                    |ev| {
+                        ev.count("ladder/documents");
+                        ev.eval();
+                        let v = ScanIndex::from_reader(text.as_bytes()).map_err(|e| format!("the read failed: {e}"))?;
+                        if v.len() != 2 {
+                            return Err(format!("{} records, expected 2", v.len()).into());
+                        }
+                        let ok = if list {
+                            v[0].scan_depends.len() == items && v[0].pkg_skip_reason.is_none()
+                        } else {
+                            v[0].pkg_skip_reason.as_deref() == Some(value.trim()) && v[0].scan_depends.is_empty()
+                        };
+                        if !ok || v[0].maintainer.as_deref() != Some("me") || v[1].categories.as_deref() != Some("dog") || v[1].maintainer.is_some() {
+                            return Err("the long value or a field of its neighbours is not what the lines say".to_string().into());
+                        }
+                        ev.nontrivial(crate::rng::hash_bytes(format!("{key}{}", value.len()).as_bytes()));
+                        Ok(())
+                    },
+                );
+            }
+        }
+        cx.default_budget();
+    }
+
     // (a) fault-free documents: slice reader and a chunked reader.
     let n = cx.per_shard(48, 3_000, 48_000, 480_000);
     let mut r = cx.stream("clean");
